@@ -411,11 +411,18 @@ func (c *FnCtx) callContract(fr *Frame, st *State, x *ssa.Call, callee *ssa.Func
 	for i, rq := range fc.Requires {
 		r := c.evalGhost(st, e.ld.GhostFunc(rq.Fn), args)
 		c.addObl(st, "pre", fmt.Sprintf("%s.req%d@call%d", fc.Name, i, ord), r, x.Pos(), rq.Raw)
-		c.addFact(st, r)
+		c.assumeChecked(st, r)
 	}
 	var olds []*Term
 	for _, o := range fc.Olds {
 		olds = append(olds, c.evalGhost(st, e.ld.GhostFunc(o.Fn), args))
+	}
+	// termination of recursion: the callee's measure is below the measure at entry
+	if callee == c.top && fc.Decr != nil && c.entryMeasure != nil && len(c.stack) == 1 {
+		m := c.evalGhost(st, e.ld.GhostFunc(fc.Decr.Fn), args)
+		c.addObl(st, "variant", fmt.Sprintf("%s@call%d", fc.Name, ord), ts.And(ts.Le(ts.Int(0), c.entryMeasure), ts.Lt(m, c.entryMeasure)), x.Pos(), "decreases "+fc.Decr.Raw)
+	} else if callee == c.top && fc.Decr == nil && len(c.stack) == 1 {
+		c.trusted["termination of recursive function "+fc.Name+" is not verified (no decreases clause)"] = true
 	}
 	pre := st.clone()
 	// the callee may allocate
@@ -566,6 +573,9 @@ func (c *FnCtx) builtin(fr *Frame, st *State, x *ssa.Call, b *ssa.Builtin) {
 		default:
 			fr.regs[x] = ts.Len(fr.val(args[0]).(*Term))
 		}
+		if l, ok := fr.regs[x].(*Term); ok && l.kind != kLit {
+			c.addFact(st, ts.And(ts.Le(ts.Int(0), l), ts.Le(l, ts.BigInt("72057594037927936"))))
+		}
 	case "cap":
 		s := fr.val(args[0]).(*Term)
 		r := ts.Fresh("cap", SInt)
@@ -632,6 +642,8 @@ func (c *FnCtx) quantifier(fr *Frame, st *State, universal bool, n *Term, fv Sym
 	}
 	bv := ts.Bound("i", SInt)
 	work := st.clone()
+	// the body is evaluated for an index in range: facts generated inside are guarded by the range
+	work.pc = ts.And(st.pc, ts.Le(ts.Int(0), bv), ts.Lt(bv, n))
 	nf := len(c.facts)
 	c.noObl++
 	var body []*Term
@@ -644,11 +656,7 @@ func (c *FnCtx) quantifier(fr *Frame, st *State, universal bool, n *Term, fv Sym
 	// facts generated while evaluating the body may mention the bound variable: they hold for every index in
 	// range, so they are re-stated as separate universally quantified facts (polarity independent)
 	rng := ts.And(ts.Le(ts.Int(0), bv), ts.Lt(bv, n))
-	for i := nf; i < len(c.facts); i++ {
-		if ts.mentions(c.facts[i], bv) {
-			c.facts[i] = ts.Quant("forall", bv, ts.Implies(rng, c.facts[i]))
-		}
-	}
+	_ = nf // facts generated inside were closed over the bound variable by addFact (guarded by the range)
 	if universal {
 		return ts.Quant("forall", bv, ts.Implies(rng, body[0]))
 	}
